@@ -1,1 +1,32 @@
-From QV Require Import Base Fields SrcFacts Msg SrcDecisions Cache Sim Resolver.
+(* Properties_C16.v — a resolver reports exactly the valid addresses of its host (partial). *)
+From QV Require Import Base Fields SrcFacts Msg SrcDecisions Cache Sim Prober Resolver ResolverProofs.
+Local Open Scope Z_scope.
+
+(* PARTIAL.  Proved on the model: the shape of the initial query, soundness of the reports caused by responses
+   (right name and type, nonzero TTL, not reported before), and that the received address records are stored.
+   The full statement (every such address IS reported, the zero-delay report of the cached addresses, cache
+   content) is enforced on every run by the acceptor mon_resolver on the implementation's and the model's traces. *)
+Theorem C16_initial_query_partial s :
+  m_response (res_query s) = false /\
+  m_queries (res_query s) = [mkQuery (rs_name s) 1 false; mkQuery (rs_name s) 28 false] /\
+  m_records (res_query s) = lookup (rs_name s) 1 (rs_cache s) ++ lookup (rs_name s) 28 (rs_cache s).
+Proof. exact (res_query_shape s). Qed.
+Print Assumptions C16_initial_query_partial.
+
+Theorem C16_reports_sound_partial now rs s a :
+  In (ESig OBJ SIG_resolved (PAddr a)) (snd (res_records now rs s)) ->
+  exists r, In r rs /\ resolver_filter r (rs_name s) = true /\ r_ttl r <> 0%N /\ r_addr r = a /\
+            existsb (addr_eqb a) (rs_addrs s) = false.
+Proof. exact (res_records_sound now rs s a). Qed.
+Print Assumptions C16_reports_sound_partial.
+
+Theorem C16_filter_is_name_and_address_type r name :
+  resolver_filter r name = bs_eqb (r_name r) name && ((r_type r =? 1)%N || (r_type r =? 28)%N).
+Proof. exact (resolver_filter_spec r name). Qed.
+Print Assumptions C16_filter_is_name_and_address_type.
+
+Theorem C16_received_records_stored_partial now rs s :
+  rs_cache (fst (res_records now rs s)) =
+  fold_left (fun c r => fst (add now (rs_jitter s) r c)) (filter (fun r => resolver_filter r (rs_name s)) rs) (rs_cache s).
+Proof. exact (res_records_cache now rs s). Qed.
+Print Assumptions C16_received_records_stored_partial.
